@@ -765,6 +765,7 @@ def correspondence(ctx):
         lines.append('global ' + ' '.join(tok))
 
     rep = iter(C.lean_driver('C19', lines))
+    cf2_lines, cf2_jobs = [], []
 
     # ---------------- evaluate
     for job in jobs:
@@ -817,6 +818,18 @@ def correspondence(ctx):
                     ctx.hist['trace:checked/refraction-against-the-normal'] += 1
                 for b in bad[:1]:
                     ctx.pred_fail('trace', case, b)
+                # every surface of the trace: the hit point the code found (local frame) against the PROVED closed-form intersection
+                # of the incident ray with the plane / conic / parent conic -- the SAME point, not just some point of the surface
+                for j in range(k):
+                    if float(np.linalg.norm(ph[j + 1] - ph[j])) > 1e4 or bad:
+                        ctx.hist['trace_closed_form:skipped-far-origin'] += 1
+                        continue
+                    Rm_ = np.eye(3) if mats[j] is None else np.asarray(mats[j], dtype=float)
+                    pv_ = _pvec(specs[j]['P'])
+                    cf = _closed_form_line(specs[j]['shape'], Rm_ @ (ph[j] - pv_), Rm_ @ sh[j])
+                    if cf is not None:
+                        cf2_lines.append(cf[0])
+                        cf2_jobs.append((case, j, specs[j]['shape'][0], Rm_ @ (ph[j + 1] - pv_), cf[1], tags[i]))
                 allow = 0.0
                 for j in range(k):
                     # far origins: see the tolerance rule at the top of this file; the allowance of an earlier leg carries on
@@ -939,6 +952,17 @@ def correspondence(ctx):
                     or abs(np.linalg.norm(Xl[0]) - np.linalg.norm(X - P0)) > TOL * 20:
                 ctx.pred_fail('frames', case, 'local/global frame change is not an exact rigid motion')
 
+    if cf2_lines:
+        for (case, j, shname, X, shift, tag), reply in zip(cf2_jobs, C.lean_driver('C19', cf2_lines)):
+            tok = reply.split()
+            hit = np.array([C.w2f(v) for v in tok[1:4]]) - shift if len(tok) == 4 else np.full(3, np.nan)
+            ctx.case('trace_closed_form', {**case, 'surface': j}, nontrivial=shname != 'plane', tag=f'{shname}/surface{min(j, 2)}/{tag}')
+            if not np.isfinite(hit).all():
+                ctx.hist['trace_closed_form:model-nan'] += 1
+                continue
+            if np.abs(X - hit).max() > 1e-9 * max(1.0, float(np.abs(hit).max())):
+                ctx.disagree('trace_closed_form', {**case, 'surface': j}, {'local_hit': X.tolist()}, {'closed_form': hit.tolist()})
+
     _qtype_stream(ctx)
     _intersect_stream(ctx)
     _history_stream(ctx)
@@ -973,8 +997,34 @@ def intersect_eval(c):
     return bad
 
 
+def _closed_form_line(sh, P, S):
+    """driver request for the closed-form ray/conic intersection (theorem conic_closed_form_hit) of the ray (P, S) with a plane, a
+    conic or an off-axis conic (= the parent conic at shifted coordinates): the origin is first moved along the ray to the vertex
+    plane (any point of the ray will do for the theorem; this one keeps C small for origins 1e9 or 1e99 away) and the direction is
+    taken towards +z (the same line), so that the model's root `C / (sqrt(B^2 - AC) - B)` is the one next to the vertex.
+    -> (line, shift) or None"""
+    P, S = np.asarray(P, dtype=float), np.asarray(S, dtype=float)
+    if sh[0] == 'plane':
+        c_, k_, shift = 0.0, 0.0, np.zeros(3)
+    elif sh[0] == 'conic':
+        c_, k_, shift = float(sh[1]), float(sh[2]), np.zeros(3)
+    elif sh[0] == 'sphere':
+        c_, k_, shift = float(sh[1]), 0.0, np.zeros(3)
+    elif sh[0] in ('offaxis', 'off_axis', 'offAxis') and len(sh) >= 5:
+        c_, k_, shift = float(sh[1]), float(sh[2]), np.array([float(sh[3]), float(sh[4]), 0.0])
+    else:
+        return None
+    if S[2] == 0 or not np.isfinite(P).all():
+        return None
+    P1 = P + (-P[2] / S[2]) * S
+    P1[2] = 0.0
+    Sd = S if S[2] > 0 else -S
+    return ' '.join(['hit', C.f2w(c_), C.f2w(k_)] + [C.f2w(v) for v in (P1 + shift)] + [C.f2w(v) for v in Sd]), shift
+
+
 def _intersect_stream(ctx):
     rng = ctx.rng
+    cf_lines, cf_jobs = [], []
     for i in range(ctx.scale(60, 800)):
         a = float(rng.choice([2.0, 5.0, 12.5]))
         sh = _rand_shape(rng, a)
@@ -992,6 +1042,32 @@ def _intersect_stream(ctx):
             bad = [f'intersect raised {type(ex).__name__}: {ex}']
         for b in bad[:1]:
             ctx.pred_fail('intersect', c, b)
+        cf = _closed_form_line(sh, c['P'], c['S'])
+        if cf is not None and not bad:
+            cf_lines.append(cf[0])
+            cf_jobs.append((c, cf[1]))
+    # Newton's answer against the PROVED closed form (planes, conics, off-axis conics): same point of the surface, not merely a point
+    # of the surface -- the root next to the vertex
+    if cf_lines:
+        sf, sm, co = _impl()
+        for (c, shift), reply in zip(cf_jobs, C.lean_driver('C19', cf_lines)):
+            tok = reply.split()
+            if len(tok) != 4:
+                continue
+            hit = np.array([C.w2f(v) for v in tok[1:]]) - shift
+            surf = build_surface({'kind': 'refl', 'P': [0.0, 0.0, 0.0], 'R': None, 'shape': tuple(c['shape'])})
+            kw = {'eps': c['eps']} if c.get('eps') is not None else {}
+            with np.errstate(all='ignore'):
+                Pj, _ = sm.intersect(np.array([c['P']], dtype=float), np.array([c['S']], dtype=float), surf.sag_normal, c.get('s1', 0), **kw)
+            X = np.asarray(Pj)[0]
+            cc = {**c, 'closed_form': True}
+            ctx.case('intersect_closed_form', cc, nontrivial=c['shape'][0] != 'plane', tag=str(c['shape'][0]))
+            if not np.isfinite(hit).all():
+                ctx.hist['intersect_closed_form:model-nan'] += 1
+                continue
+            scale = max(1.0, float(np.abs(hit).max()))
+            if np.abs(X - hit).max() > max(1e-9, 40 * (c.get('eps') or 0.0)) * scale:
+                ctx.disagree('intersect_closed_form', cc, X.tolist(), hit.tolist())
 
 
 def history_eval(c):
@@ -1342,15 +1418,34 @@ MANIFEST_ENTRY = {
              'the off-axis closure; over the reals conic_sag_der is the derivative (HasDerivAt) of conic_sag; the polar->Cartesian '
              'gradient never divides by zero and equals the Cartesian gradient on the whole surface, vertex included; the public polar '
              'off-axis functions are the chain-rule images of the parent conic at shifted coordinates; intersect starts on the vertex '
-             'plane; Newton post-condition |F| < eps|F\'| IF the loop stops.  TRANSLATION IDENTITIES (generated = model, syntactic or '
+             'plane; Newton post-condition |F| < eps|F\'| IF the loop stops; for PLANES convergence is proved, not trusted: the Newton '
+             'loop of the model stops in its first pass with the exact intersection for every ray not parallel to the plane, every '
+             'eps > 0 and iteration budget >= 1 (plane_intersect_converges), and the translated update reaches the root in one step from '
+             'any s_j (plane_newton_one_step); for CONICS (planes and off-axis parents included) the implicit equation along a ray is the '
+             'quadratic A s^2 + 2 B s + C (conic_ray_quadratic), the closed-form point P + C/(sqrt(B^2-AC) - B) S lies on the conic '
+             '(conic_closed_form_hit), and on the vertex branch a point of the implicit conic is a point of the translated sag function '
+             '(conic_implicit_is_sag; with conic_on_surface: G = 0 <=> z = sag); WHOLE TRACE: for every prescription (any number / mix of '
+             'surfaces, shapes, orthogonal frames) the model tracer returns one hit per surface and every outgoing direction is a unit '
+             'vector, given a unit start direction and no total internal reflection (trace_unit_directions, induction over the surface '
+             'list; the model tracer is the one compared with raytrace at 1e-9); under the same hypotheses Snell\'s law in vector form '
+             'holds at EVERY refracting surface with the index the previous hit carries and the law of reflection at EVERY mirror, the '
+             'index being unchanged by mirrors and evaluation surfaces (trace_snell, SurfaceLaw / TraceLaws; the index carried on is the '
+             'translated dispatch of raytrace: gen_index_threading, surface_index -- a mirror that resets the index to ambient fails the '
+             'obligation); and IF the tracer returns hits (Newton stopped everywhere -- a POST-CONDITION, not convergence) every hit of '
+             'every prescription is a point of the ray sent on by the previous hit, within eps*scale*|F\'| of the surface, with the '
+             'normal vector of the surface there (trace_on_surface, newton_model_postcondition by induction over the iteration '
+             'budget).  TRANSLATION IDENTITIES (generated = model, syntactic or '
              'ring-normalised; AST facts; no content of their own): the 12 gen_* theorems and gen_structure.  COMPARED ON THE REAL CODE: '
              'the whole trace (Newton iteration, masking, index threading through n=None surfaces inside glass, batch and single-ray '
              'call forms, every spelling of typ and of P) against the Lean Float model and an independent implicit-surface oracle '
              '(on-surface residual 2e-12, unit length, mirror law, Snell with the true indices, continuation through the surface, rays '
              'against the normal, 50%..99.9% of the critical angle at sloped points); off_axis_conic_sag/der against model and numerical '
-             'derivatives; Q-type surfaces (Q2d_and_der) traced and checked against the numerical gradient of their own sag.'),
-    'note': ('NOT proved: convergence of Newton-Raphson (only its post-condition, exact arithmetic), floating-point error, the batch '
-             'masking bookkeeping, that hypot/arctan2 deliver a (cos, sin) pair, any whole-trace composition lemma; Q-type surfaces are '
+             'derivatives; Q-type surfaces (Q2d_and_der) traced and checked against the numerical gradient of their own sag; the hit '
+             'point of EVERY surface of every trace and of the direct intersect() stream against the proved closed-form intersection '
+             '(driver op hit, 1e-9): Newton must land on the root next to the vertex, not merely on the surface.'),
+    'note': ('NOT proved: convergence of Newton-Raphson on curved surfaces (post-condition in exact arithmetic + comparison with the '
+             'proved closed form for conics; proved for planes), floating-point error, the batch '
+             'masking bookkeeping, that hypot/arctan2 deliver a (cos, sin) pair; Q-type surfaces are '
              'not modelled in Lean (real code vs numerical gradient at 1e-7 only); eps / maxiter are not translated (a loosened stopping '
              'rule is seen through the 2e-12 on-surface residual).  Too few executed cases in any stream is a tool error (floors).'),
 }
